@@ -7,6 +7,7 @@ CONSTANTS
   EnvBudget = 1
   EditBudget = 1
   AnnBudget = 1
+  EnvKinds = {"unready", "fail", "restart", "dup", "node"}
   MaxPerNode = 3
   AgeCap = 2
   KnownFindings = {"F-stale-nodes"}
